@@ -641,7 +641,7 @@ Lemma add_header_headers t k v :
 Proof.
   unfold add_request_header. destruct (dc_is_empty k); [reflexivity|].
   destruct (bytes_eqb (lower_ascii k) (str "content-type")).
-  - destruct (bytes_eqb _ dc_ct_urlencoded); [reflexivity|].
+  - destruct (bytes_eqb _ dc_ct_urlencoded || is_prefix (dc_ct_urlencoded ++ [59]) _); [reflexivity|].
     destruct (is_prefix _ _); reflexivity.
   - destruct (bytes_eqb (lower_ascii k) (str "cookie")); reflexivity.
 Qed.
@@ -681,29 +681,42 @@ Section BodyFold.
 Variable fold : bytes -> bytes.
 Variable cookie_ord : bytes -> gmap.
 
-Definition urlencoded_tx : txv :=
-  add_request_header fold cookie_ord txv_empty (str "Content-Type") dc_ct_urlencoded.
+(* the content types AddRequestHeader takes for a urlencoded body: the media type alone or
+   followed by ';' and parameters, in any letter case *)
+Definition ct_is_urlencoded (ct : bytes) : bool :=
+  bytes_eqb (lower_ascii ct) dc_ct_urlencoded || is_prefix (dc_ct_urlencoded ++ [59]) (lower_ascii ct).
 
-Lemma urlencoded_tx_eq :
-  urlencoded_tx = set_rbp (set_headers txv_empty (cm_add fold [] (str "Content-Type") dc_ct_urlencoded)) (str "URLENCODED").
-Proof. reflexivity. Qed.
+Definition urlencoded_tx_ct (ct : bytes) : txv :=
+  add_request_header fold cookie_ord txv_empty (str "Content-Type"%string) ct.
+Definition urlencoded_tx : txv := urlencoded_tx_ct dc_ct_urlencoded.
 
-Theorem urlencoded_visible cfg o l :
+Lemma urlencoded_tx_ct_eq ct : ct_is_urlencoded ct = true ->
+  urlencoded_tx_ct ct =
+  set_rbp (set_headers txv_empty (cm_add fold [] (str "Content-Type"%string) ct)) (str "URLENCODED"%string).
+Proof.
+  intro H. unfold urlencoded_tx_ct, add_request_header.
+  change (dc_is_empty (str "Content-Type")) with false. cbv iota.
+  change (bytes_eqb (lower_ascii (str "Content-Type")) (str "content-type")) with true. cbv iota.
+  unfold ct_is_urlencoded in H. rewrite H. reflexivity.
+Qed.
+
+Theorem urlencoded_visible_ct cfg o l ct :
+  ct_is_urlencoded ct = true ->
   wf_pairs l -> bc_access cfg = true ->
   Permutation (bo_post_ord o) (parse_query (enc_urlencoded l) 38) ->
-  let t := process_request_body fold cfg o urlencoded_tx (enc_urlencoded l) in
+  let t := process_request_body fold cfg o (urlencoded_tx_ct ct) (enc_urlencoded l) in
   Permutation (cm_find_all (v_args_post t)) l /\
   v_request_body t = enc_urlencoded l /\ v_reqbody_error t = false.
 Proof.
-  intros Hwf Hacc Hord t. unfold t, process_request_body. rewrite Hacc. cbn [negb orb].
+  intros Hct Hwf Hacc Hord t. unfold t, process_request_body. rewrite Hacc. cbn [negb orb].
+  rewrite (urlencoded_tx_ct_eq ct Hct).
   destruct (dc_is_empty (enc_urlencoded l)) eqn:E.
   - (* empty body: l must be empty *)
     destruct l as [|p l].
     + repeat split; reflexivity.
     + exfalso. unfold enc_urlencoded, enc_query in E. cbn [map dc_join] in E.
       destruct l; unfold enc_pair in E; destruct (pct_enc (fst p)); discriminate.
-  - rewrite urlencoded_tx_eq.
-    destruct (bc_force cfg);
+  - destruct (bc_force cfg);
       match goal with |- context [select_processor ?x] => change (select_processor x) with PUrlencoded end;
       cbn [v_args_post v_request_body v_reqbody_error set_request_body set_args_post set_rbp set_headers txv_empty];
       (repeat split; [|reflexivity..]);
@@ -712,6 +725,14 @@ Proof.
       unfold parse_query, do_parse_query, enc_urlencoded; rewrite query_roundtrip_pairs by exact Hwf;
       apply group_pairs_flat.
 Qed.
+
+Theorem urlencoded_visible cfg o l :
+  wf_pairs l -> bc_access cfg = true ->
+  Permutation (bo_post_ord o) (parse_query (enc_urlencoded l) 38) ->
+  let t := process_request_body fold cfg o urlencoded_tx (enc_urlencoded l) in
+  Permutation (cm_find_all (v_args_post t)) l /\
+  v_request_body t = enc_urlencoded l /\ v_reqbody_error t = false.
+Proof. apply urlencoded_visible_ct. reflexivity. Qed.
 
 End BodyFold.
 
@@ -937,6 +958,315 @@ Proof.
   intros fold ord P. split; [reflexivity|].
   apply Permutation_sym in P. vm_compute in P. apply Permutation_length_1_inv in P. subst ord.
   vm_compute. intros [C|[]]. discriminate.
+Qed.
+
+(* ------------------------------------------------------------------------------------ *)
+(* 14. cookies                                                                           *)
+(* ------------------------------------------------------------------------------------ *)
+
+Definition head_ok (s : bytes) : bool := match s with [] => true | c :: _ => negb (dc_is_ows c) end.
+
+(* what ParseCookies requires of a pair to hand it back unchanged: a non-empty name without
+   ';' and '=' and without optional white space (SP HT LF CR) at its ends, a value without ';'
+   and without trailing white space *)
+Definition cookie_ok (p : kv) : bool :=
+  negb (dc_is_empty (fst p)) && head_ok (fst p) && head_ok (rev (fst p)) &&
+  forallb (fun c => negb (c =? 59) && negb (c =? 61)) (fst p) &&
+  head_ok (rev (snd p)) && forallb (fun c => negb (c =? 59)) (snd p).
+
+Lemma drop_ws_id s : head_ok s = true -> dc_drop_ws s = s.
+Proof. destruct s as [|c s]; [reflexivity|]. cbn. intro H. apply negb_true_iff in H. now rewrite H. Qed.
+
+Lemma trim_id s : head_ok s = true -> head_ok (rev s) = true -> dc_trim s = s.
+Proof. intros A B. unfold dc_trim. rewrite (drop_ws_id s A), (drop_ws_id _ B). apply rev_involutive. Qed.
+
+Lemma head_ok_app a b : a <> [] -> head_ok (a ++ b) = head_ok a.
+Proof. destruct a; [congruence|reflexivity]. Qed.
+
+Lemma rev_not_nil {A} (l : list A) : l <> [] -> rev l <> [].
+Proof. destruct l; [congruence|]. intros _ E. cbn in E. destruct (rev l); discriminate. Qed.
+
+Definition piece (p : kv) : bytes := fst p ++ [61] ++ snd p.
+
+Lemma piece_not_nil p : piece p <> [].
+Proof. unfold piece. destruct (fst p); discriminate. Qed.
+
+Lemma piece_head p : cookie_ok p = true -> head_ok (piece p) = true.
+Proof.
+  unfold cookie_ok. intro H. repeat (apply andb_true_iff in H as [H ?]).
+  unfold piece. rewrite head_ok_app; [assumption|].
+  destruct (fst p); [discriminate|discriminate].
+Qed.
+
+Lemma piece_tail p : cookie_ok p = true -> head_ok (rev (piece p)) = true.
+Proof.
+  unfold cookie_ok. intro H. repeat (apply andb_true_iff in H as [H ?]).
+  unfold piece. rewrite !rev_app_distr.
+  destruct (snd p) as [|c v] eqn:E.
+  - reflexivity.
+  - rewrite <- app_assoc. rewrite head_ok_app; [assumption|]. apply rev_not_nil. discriminate.
+Qed.
+
+Lemma forallb_no (c : byte) (f : byte -> bool) s : forallb f s = true -> f c = false -> ~ In c s.
+Proof. intros H Hc I. rewrite forallb_forall in H. specialize (H _ I). congruence. Qed.
+
+Lemma name_no61 p : cookie_ok p = true -> ~ In 61 (fst p).
+Proof.
+  unfold cookie_ok. intro H. repeat (apply andb_true_iff in H as [H ?]).
+  eapply forallb_no; [eassumption|reflexivity].
+Qed.
+Lemma piece_no59 p : cookie_ok p = true -> ~ In 59 (piece p).
+Proof.
+  unfold cookie_ok. intro H. repeat (apply andb_true_iff in H as [H ?]).
+  unfold piece. intro I. apply in_app_or in I as [I|I].
+  - revert I. eapply forallb_no; [eassumption|reflexivity].
+  - cbn [app] in I. destruct I as [I|I]; [discriminate|].
+    revert I. eapply forallb_no; [eassumption|reflexivity].
+Qed.
+
+Lemma cookie_part_piece p : cookie_ok p = true -> dc_cookie_part (piece p) = Some p.
+Proof.
+  intro H. unfold dc_cookie_part.
+  rewrite trim_id by (apply piece_head || apply piece_tail; exact H).
+  destruct (dc_is_empty (piece p)) eqn:E.
+  { pose proof (piece_not_nil p). destruct (piece p); [congruence|discriminate]. }
+  unfold piece. cbn [app]. rewrite cut_app by (now apply name_no61).
+  unfold cookie_ok in H. repeat (apply andb_true_iff in H as [H ?]).
+  rewrite trim_id by assumption.
+  apply negb_true_iff in H. rewrite H. now destruct p.
+Qed.
+
+Lemma cookie_part_sp_piece p : cookie_ok p = true -> dc_cookie_part (32 :: piece p) = Some p.
+Proof.
+  intro H. rewrite <- (cookie_part_piece p H). unfold dc_cookie_part.
+  assert (E : dc_trim (32 :: piece p) = dc_trim (piece p)).
+  { unfold dc_trim. reflexivity. }
+  now rewrite E.
+Qed.
+
+Lemma join_cons_head sep (c : byte) y rest : dc_join sep ((c :: y) :: rest) = c :: dc_join sep (y :: rest).
+Proof. destruct rest; reflexivity. Qed.
+
+Lemma join_sp x r : dc_join [59; 32] (x :: r) = dc_join [59] (x :: map (cons 32) r).
+Proof.
+  revert x. induction r as [|y r IH]; intro x; [reflexivity|].
+  change (dc_join [59; 32] (x :: y :: r)) with (x ++ [59; 32] ++ dc_join [59; 32] (y :: r)).
+  rewrite IH. cbn [map].
+  change (dc_join [59] (x :: (32 :: y) :: map (cons 32) r))
+    with (x ++ [59] ++ dc_join [59] ((32 :: y) :: map (cons 32) r)).
+  rewrite join_cons_head. reflexivity.
+Qed.
+
+Lemma join_not_nil sep x r : x <> [] -> dc_join sep (x :: r) <> [].
+Proof. intro H. cbn [dc_join]. destruct r; [exact H|]. destruct x; [congruence|discriminate]. Qed.
+
+Lemma join_head sep x r : x <> [] -> head_ok (dc_join sep (x :: r)) = head_ok x.
+Proof. intro H. cbn [dc_join]. destruct r; [reflexivity|]. now apply head_ok_app. Qed.
+
+Lemma last_nonempty_default {A} (l : list A) a d1 d2 : last (a :: l) d1 = last (a :: l) d2.
+Proof. revert a. induction l as [|b l IH]; intro a; [reflexivity|]. cbn [last] in *. apply IH. Qed.
+
+Lemma join_tail sep l : forall x,
+  Forall (fun y => y <> []) (x :: l) ->
+  head_ok (rev (dc_join sep (x :: l))) = head_ok (rev (last l x)).
+Proof.
+  induction l as [|y l IH]; intros x H; [reflexivity|].
+  inversion H as [|? ? Hx Hl]; subst.
+  change (dc_join sep (x :: y :: l)) with (x ++ sep ++ dc_join sep (y :: l)).
+  rewrite !rev_app_distr. rewrite <- app_assoc.
+  rewrite head_ok_app.
+  - rewrite IH by exact Hl. destruct l; [reflexivity|]. cbn [last]. f_equal. f_equal. apply last_nonempty_default.
+  - apply rev_not_nil. apply join_not_nil. now inversion Hl.
+Qed.
+
+Theorem cookie_roundtrip l : forallb cookie_ok l = true -> cookie_pairs (enc_cookie l) = l.
+Proof.
+  intro H. destruct l as [|p l]; [reflexivity|].
+  cbn [forallb] in H. apply andb_true_iff in H as [Hp Hl].
+  unfold cookie_pairs.
+  assert (E : enc_cookie (p :: l) = dc_join [59; 32] (piece p :: map piece l)) by reflexivity.
+  rewrite E. clear E. rewrite join_sp.
+  set (xs := piece p :: map (cons 32) (map piece l)).
+  assert (Hne : Forall (fun y => y <> []) xs).
+  { unfold xs. constructor; [apply piece_not_nil|]. rewrite map_map. apply Forall_forall.
+    intros y I. apply in_map_iff in I as (q & <- & _). discriminate. }
+  assert (Htrim : dc_trim (dc_join [59] xs) = dc_join [59] xs).
+  { apply trim_id.
+    - unfold xs. rewrite join_head by apply piece_not_nil. now apply piece_head.
+    - unfold xs. rewrite join_tail by exact Hne.
+      rewrite map_map.
+      destruct l as [|q l'] using rev_ind; [now apply piece_tail|].
+      rewrite map_app. cbn [map]. rewrite last_last. cbn [rev].
+      rewrite head_ok_app by (apply rev_not_nil, piece_not_nil).
+      apply piece_tail. rewrite forallb_app in Hl. apply andb_true_iff in Hl as [_ Hq].
+      cbn [forallb] in Hq. now apply andb_true_iff in Hq as [Hq _]. }
+  rewrite Htrim. rewrite split_join.
+  - unfold xs. cbn [map dc_some_list]. rewrite cookie_part_piece by exact Hp. cbn [dc_some_list]. f_equal.
+    clear Hne Htrim xs. induction l as [|q l IH]; [reflexivity|].
+    cbn [forallb] in Hl. apply andb_true_iff in Hl as [Hq Hl].
+    cbn [map]. rewrite cookie_part_sp_piece by exact Hq. cbn [dc_some_list]. f_equal. now apply IH.
+  - discriminate.
+  - unfold xs. constructor; [now apply piece_no59|].
+    rewrite map_map. apply Forall_forall. intros y I. apply in_map_iff in I as (q & <- & Iq).
+    intros [C|C]; [discriminate|]. revert C. apply piece_no59.
+    rewrite forallb_forall in Hl. now apply Hl.
+Qed.
+
+(* through AddRequestHeader: REQUEST_COOKIES holds exactly the pairs, no URL decoding, whatever
+   order Go's range takes over the parsed cookie map *)
+Theorem cookie_header_visible fold cookie_ord l :
+  forallb cookie_ok l = true ->
+  Permutation (cookie_ord (enc_cookie l)) (parse_cookies (enc_cookie l)) ->
+  let t := add_request_header fold cookie_ord txv_empty (str "Cookie"%string) (enc_cookie l) in
+  Permutation (cm_find_all (v_cookies t)) l.
+Proof.
+  intros H P t. unfold t, add_request_header.
+  change (dc_is_empty (str "Cookie")) with false. cbv iota.
+  change (bytes_eqb (lower_ascii (str "Cookie")) (str "content-type")) with false. cbv iota.
+  change (bytes_eqb (lower_ascii (str "Cookie")) (str "cookie")) with true. cbv iota.
+  cbn [v_cookies set_cookies set_headers txv_empty].
+  rewrite add_all_flat, add_pairs_find_all. cbn [cm_find_all flat_map app].
+  eapply Permutation_trans; [unfold gmap_flat; apply Permutation_flat_map; exact P|].
+  unfold parse_cookies. rewrite cookie_roundtrip by exact H. apply group_pairs_flat.
+Qed.
+
+Example cookie_guard_example :
+  forallb cookie_ok [(str "sid"%string, str "a b=c%41"%string); (str "x"%string, []); (str "sid"%string, str " lead"%string)] = true.
+Proof. reflexivity. Qed.
+
+(* ------------------------------------------------------------------------------------ *)
+(* 15. the flattening writes every scalar leaf under its dotted path                     *)
+(* ------------------------------------------------------------------------------------ *)
+
+Section JsonInd.
+Variable P : json -> Prop.
+Hypothesis Hs : forall s, P (JStr s).
+Hypothesis Hn : P JNull.
+Hypothesis Hr : forall r, P (JRaw r).
+Hypothesis Ha : forall items, Forall P items -> P (JArr items).
+Hypothesis Ho : forall ms, Forall (fun m => P (snd m)) ms -> P (JObj ms).
+Fixpoint json_ind' (t : json) : P t :=
+  match t with
+  | JStr s => Hs s
+  | JNull => Hn
+  | JRaw r => Hr r
+  | JArr items =>
+    Ha items ((fix f (l : list json) : Forall P l :=
+                 match l with [] => Forall_nil _ | x :: r => Forall_cons _ (json_ind' x) (f r) end) items)
+  | JObj ms =>
+    Ho ms ((fix f (l : list (bytes * json)) : Forall (fun m => P (snd m)) l :=
+              match l with [] => Forall_nil _ | m :: r => Forall_cons _ (json_ind' (snd m)) (f r) end) ms)
+  end.
+End JsonInd.
+
+(* specification of the leaves with the loops named, so that they can be related to the
+   loops of the model *)
+Definition arr_leaves (rec : json -> bytes -> list jwrite) (key : bytes) :=
+  fix go (i : N) (l : list json) : list jwrite :=
+    match l with
+    | [] => []
+    | x :: r => rec x (key ++ [46] ++ itoa i) ++ go (i + 1) r
+    end.
+Definition obj_leaves (rec : json -> bytes -> list jwrite) (key : bytes) :=
+  fix go (l : list (bytes * json)) : list jwrite :=
+    match l with
+    | [] => []
+    | (k, x) :: r => rec x (key ++ [46] ++ k) ++ go r
+    end.
+
+Lemma json_leaves_arr items key : json_leaves (JArr items) key = arr_leaves json_leaves key 0 items.
+Proof. reflexivity. Qed.
+Lemma json_leaves_obj ms key : json_leaves (JObj ms) key = obj_leaves json_leaves key ms.
+Proof. reflexivity. Qed.
+
+Lemma leaf_leaves x v k : dc_leaf x = Some v -> json_leaves x k = [(k, v)].
+Proof. destruct x; cbn; intro H; inversion H; reflexivity. Qed.
+
+Definition leaves_written (t : json) : Prop :=
+  forall depth key w, dc_leaf t = None -> read_items t depth key = (w, false) -> incl (json_leaves t key) w.
+
+Lemma arr_go_leaves d key items :
+  Forall leaves_written items ->
+  forall i w e lk n,
+    dc_arr_go (fun x k => read_items x d k) key i items = (w, e, lk, n) -> e = false ->
+    incl (arr_leaves json_leaves key i items) w.
+Proof.
+  induction 1 as [|x r Hx Hr IH]; intros i w e lk n Hg He.
+  - intros y [].
+  - cbn [dc_arr_go arr_leaves] in Hg |- *. destruct (dc_leaf x) as [v|] eqn:Lx.
+    + destruct (dc_arr_go (fun x k => read_items x d k) key (i + 1) r) as [[[w2 e2] lk2] n2] eqn:G2.
+      inversion Hg; subst. rewrite (leaf_leaves _ _ _ Lx). intros y [<-|Iy]; [now left|].
+      right. eapply IH; eauto.
+    + destruct (read_items x d (key ++ [46] ++ itoa i)) as [wx ex] eqn:Rx. destruct ex.
+      * inversion Hg; subst. discriminate.
+      * destruct (dc_arr_go (fun x k => read_items x d k) key (i + 1) r) as [[[w2 e2] lk2] n2] eqn:G2.
+        inversion Hg; subst. intros y Iy. apply in_app_or in Iy as [Iy|Iy]; apply in_or_app.
+        -- left. eapply Hx; eauto.
+        -- right. eapply IH; eauto.
+Qed.
+
+Lemma obj_go_leaves d key ms :
+  Forall (fun m => leaves_written (snd m)) ms ->
+  forall w, dc_obj_go (fun x k => read_items x d k) key ms = (w, false) ->
+    incl (obj_leaves json_leaves key ms) w.
+Proof.
+  induction 1 as [|[k x] r Hx Hr IH]; intros w Hg.
+  - intros y [].
+  - cbn [dc_obj_go obj_leaves] in Hg |- *. cbn [snd] in Hx. destruct (dc_leaf x) as [v|] eqn:Lx.
+    + destruct (dc_obj_go (fun x k => read_items x d k) key r) as [w2 e2] eqn:G2.
+      inversion Hg; subst. rewrite (leaf_leaves _ _ _ Lx). intros y [<-|Iy]; [now left|].
+      right. eapply IH; eauto.
+    + destruct (read_items x d (key ++ [46] ++ k)) as [wx ex] eqn:Rx. destruct ex; [discriminate|].
+      destruct (dc_obj_go (fun x k => read_items x d k) key r) as [w2 e2] eqn:G2.
+      inversion Hg; subst. intros y Iy. apply in_app_or in Iy as [Iy|Iy]; apply in_or_app.
+      -- left. eapply Hx; eauto.
+      -- right. eapply IH; eauto.
+Qed.
+
+Lemma read_items_leaves t : leaves_written t.
+Proof.
+  induction t using json_ind'; unfold leaves_written; intros depth key w Hl Hrd; try discriminate.
+  - destruct depth as [|d]; [discriminate|]. rewrite json_leaves_arr. cbn [read_items] in Hrd.
+    destruct (dc_arr_go (fun x k => read_items x d k) key 0 items) as [[[w' e] lk] n] eqn:G0.
+    inversion Hrd; subst. intros y Iy. apply in_or_app. left.
+    eapply arr_go_leaves; eauto.
+  - destruct depth as [|d]; [discriminate|]. rewrite json_leaves_obj. cbn [read_items] in Hrd.
+    eapply obj_go_leaves; eauto.
+Qed.
+
+(* every scalar leaf of a JSON container is assigned under its dotted path when the depth limit
+   is not hit; with the guard of json_visible_partial it is therefore in ARGS_POST *)
+Theorem json_leaves_visible fold t depth w ord :
+  dc_leaf t = None -> read_json t depth = (w, false) ->
+  json_unambiguous fold w = true -> Permutation ord (json_res w) ->
+  forall leaf, In leaf (json_leaves t (str "json"%string)) -> In leaf (cm_find_all (json_apply fold [] ord)).
+Proof.
+  intros Hl Hr G P leaf I.
+  eapply Permutation_in; [apply Permutation_sym; eapply json_visible_partial; eauto|].
+  eapply read_items_leaves; eauto.
+Qed.
+
+(* ------------------------------------------------------------------------------------ *)
+(* 16. residual: optional white space before the ';' still hides a urlencoded body        *)
+(* ------------------------------------------------------------------------------------ *)
+
+(* (the form with ';' directly after the media type was a finding of this check, repaired by
+   commit 70bcddc; see urlencoded_visible_ct)
+   Content-Type: application/x-www-form-urlencoded ; charset=UTF-8 — legal per RFC 9110 (OWS
+   before ';'), accepted by mime.ParseMediaType — still selects no processor: the fields of the
+   body are in no variable, REQUEST_BODY stays empty, and no error variable is raised *)
+Theorem urlencoded_ct_ows_refuted :
+  exists (ct : bytes) (l : list kv), wf_pairs l /\ l <> [] /\
+  is_prefix dc_ct_urlencoded (lower_ascii ct) = true /\
+  forall fold cookie_ord o,
+    let t0 := add_request_header fold cookie_ord txv_empty (str "Content-Type"%string) ct in
+    let t := process_request_body fold (mk_bcfg true false 1024) o t0 (enc_urlencoded l) in
+    cm_find_all (v_args_post t) = [] /\ v_request_body t = [] /\ v_reqbody_error t = false.
+Proof.
+  exists (str "application/x-www-form-urlencoded ; charset=UTF-8"%string),
+         [(str "a"%string, str "1"%string); (str "b"%string, str "2"%string)].
+  split; [repeat constructor|]. split; [discriminate|]. split; [reflexivity|].
+  intros fold cookie_ord o. vm_compute. auto.
 Qed.
 
 (* ------------------------------------------------------------------------------------ *)
